@@ -32,9 +32,12 @@ def snap (s : Store) : String :=
   let maxKept := match s.items.getLast? with | some e => hex64 e.be | none => "-"
   s!"n={s.items.length} held={held s.items} persisted={s.tracked} radius={hex64 s.radius} maxkept={maxKept}"
 
+/-- the 32-byte value read in the other byte order -/
+def swap32 (v : Nat) : Nat := (List.range 32).foldl (fun acc i => acc * 256 + (v / 256 ^ i) % 256) 0
+
 /-- clauses of C05/C06 evaluated on what the implementation reported -/
 def monitors (cap : Nat) (preHeld : Nat) (itemSz : Nat) (allSmall : Bool) (prevRadius : Nat) (impl : List String)
-    (keyBE : Nat) (accepted : Bool) : List String :=
+    (keyBE : Nat) (accepted : Bool) (keyLE : Nat := 0) : List String :=
   let n := kvNat impl "n"
   let heldI := kvNat impl "held"
   let pers := kvNat impl "persisted"
@@ -51,7 +54,9 @@ def monitors (cap : Nat) (preHeld : Nat) (itemSz : Nat) (allSmall : Bool) (prevR
   let m7 := if radius > prevRadius && rep radius && rep prevRadius then ["radius_only_shrinks_in_both_byte_orders"] else []
   let m6 := if accepted && !(keyBE < prevRadius) then ["refusal_exact"] else
             if !accepted && keyBE < prevRadius then ["refusal_exact"] else []
-  m1 ++ m2 ++ m3 ++ m4 ++ m5 ++ m6 ++ m7
+  -- refused although the distance is below the radius whichever way the 32 bytes are read (not the recorded finding)
+  let m8 := if !accepted && prevRadius == 2 ^ 256 - 1 && keyBE < prevRadius && keyLE < swap32 prevRadius then ["refused_although_below_radius_in_both_byte_orders"] else []
+  m1 ++ m2 ++ m3 ++ m4 ++ m5 ++ m6 ++ m7 ++ m8
 
 /-- fields of a snapshot that matter to each property; clauses each property owns -/
 def keysOf (prop : String) : List String :=
@@ -62,11 +67,11 @@ def keysOf (prop : String) : List String :=
   else ["n", "held", "persisted", "radius", "maxkept", "dropped", "mindropped"]
 
 def clausesOf (prop : String) : List String :=
-  if prop == "C04" then ["get_only_put", "get_returns_stored_until_pruned", "returned_bytes_stable", "put_error", "pruned_item_stays_pruned", "refused_put_changes_nothing", "counter_ge_held_inside_pruning_put"]
+  if prop == "C04" then ["get_only_put", "get_returns_stored_until_pruned", "returned_bytes_stable", "put_error", "pruned_item_stays_pruned", "refused_put_changes_nothing", "counter_ge_held_inside_pruning_put", "refused_although_below_radius_in_both_byte_orders"]
   else if prop == "C05" then ["counter_ge_held", "held_le_cap", "prune_frees_5pct", "farthest_first", "put_error", "counter_ge_held_concurrent",
     "counter_ge_held_put_during_prune_sync", "put_returns", "counter_ge_held_inside_pruning_put"]
   else if prop == "C06" then ["retained_within_radius", "radius_antitone", "refusal_exact", "radius_changes_only_by_own_prune",
-    "radius_only_shrinks_in_both_byte_orders", "pruned_item_stays_pruned"]
+    "radius_only_shrinks_in_both_byte_orders", "pruned_item_stays_pruned", "refused_although_below_radius_in_both_byte_orders"]
   else if prop == "C17" then ["open_radius_max_when_empty", "counter_ge_held", "open_radius_max_unless_over_95pct"]
   else ["get_only_put", "get_returns_stored_until_pruned", "returned_bytes_stable", "put_error", "counter_ge_held", "held_le_cap", "prune_frees_5pct",
         "farthest_first", "retained_within_radius", "radius_antitone", "refusal_exact", "open_radius_max_when_empty", "radius_changes_only_by_own_prune",
@@ -93,7 +98,7 @@ def stepAll (d : DS) (toks : List String) (impl : String) : DS × Res :=
     let allSmall := kv toks "small" == "1"
     let dropped := (d.st.items.length + (if (get d.st x.be).isSome then 0 else 1)) - r.1.items.length
     let mon := if it.head? == some "ok" || it.head? == some "insufficient_radius" then
-        monitors d.st.cap preHeld (32 + len) allSmall d.prevRadius it x.be accepted else ["put_error"]
+        monitors d.st.cap preHeld (32 + len) allSmall d.prevRadius it x.be accepted x.le else ["put_error"]
     -- farthest-first, on the implementation's own report: every dropped key is beyond every kept key
     let mind := kv it "mindropped"
     let maxk := kv it "maxkept"
